@@ -4,6 +4,7 @@ import (
 	"bytes"
 	"fmt"
 	"path/filepath"
+	"regexp"
 	"time"
 
 	"verif/lib"
@@ -80,6 +81,48 @@ func c07Pair(seed uint64, shape string) *lib.Pair {
 		p.Feat["equal-shares"] = true
 		p.Feat["rename+edit"] = true
 		return p
+	case "selfsimilar":
+		// inputs that drive the bsdiff scanner into its overlap resolution: a segment present twice in the
+		// old file (the second copy altered near its start) with the middle dropped in the new file; small
+		// alphabets; periodic data with a phase shift
+		p := &lib.Pair{Old: lib.NewBuild(), New: lib.NewBuild(), Feat: map[string]bool{}}
+		for i := 0; i < 3; i++ {
+			A := lib.RandomBytes(int64(r.Range(100, 3000)), r.Uint64())
+			S := lib.RandomBytes(int64(r.Range(200, 5000)), r.Uint64())
+			X := lib.RandomBytes(int64(r.Range(50, 2000)), r.Uint64())
+			B := lib.RandomBytes(int64(r.Range(100, 3000)), r.Uint64())
+			S2 := append([]byte(nil), S...)
+			for k := 0; k < r.Range(1, 4); k++ {
+				S2[r.Intn(min(len(S2), 40))] ^= byte(1 + r.Intn(250))
+			}
+			old := append(append(append(append(append([]byte(nil), A...), S...), X...), S2...), B...)
+			nw := append(append(append([]byte(nil), A...), S...), B...)
+			if r.Bool() {
+				nw = append(append(append([]byte(nil), A...), S2...), B...)
+			}
+			name := fmt.Sprintf("dupseg%d.bin", i)
+			p.Old.PutFile(name, old)
+			p.New.PutFile(name, nw)
+		}
+		small := func(n, alpha int) []byte {
+			b := make([]byte, n)
+			for i := range b {
+				b[i] = byte('a' + r.Intn(alpha))
+			}
+			return b
+		}
+		o := small(r.Range(200, 4000), r.Range(2, 3))
+		n2 := append([]byte(nil), o...)
+		for k := 0; k < 6; k++ {
+			n2[r.Intn(len(n2))] = byte('a' + r.Intn(3))
+		}
+		p.Old.PutFile("alpha.bin", o)
+		p.New.PutFile("alpha.bin", append(n2[r.Intn(50):], small(r.Range(0, 60), 2)...))
+		per := lib.MakeContent(lib.CPeriod, int64(r.Range(1000, 20000)), uint64(r.Intn(5)), r)
+		p.Old.PutFile("phase.bin", per)
+		p.New.PutFile("phase.bin", append(append([]byte(nil), per[r.Range(1, 9):]...), per[:r.Range(1, 500)]...))
+		p.Feat["self-similar"] = true
+		return p
 	case "tailedit":
 		// same-length files with a few bytes changed close to the end (the add region of the bsdiff series
 		// then runs exactly to the old file's last byte), sizes on and off 32 KiB multiples
@@ -121,7 +164,7 @@ func c07Cases(tier string, seed uint64, flavor string) []lib.Case {
 	var cases []lib.Case
 	r := lib.NewRng(lib.Mix(seed, 77))
 	for i := 0; i < npairs; i++ {
-		shape := []string{"tiny", "tailedit", "generic", "shares", "tiny", "larger"}[i%6]
+		shape := []string{"tiny", "tailedit", "generic", "shares", "selfsimilar", "larger", "tiny"}[i%7]
 		s := c07Spec{PairSeed: lib.Mix(seed, 7, uint64(i)), Shape: shape, InComp: inComps[i%3]}
 		parts := []int{}
 		for p := 0; p <= 16; p++ {
@@ -179,7 +222,7 @@ func c07Run(c lib.Case, env *lib.Env) lib.Result {
 			return res // goroutines are stuck, do not continue in this process
 		}
 		if panicked {
-			res.Violate("optimizer-panic:"+firstLine(oerr.Error()), desc, stack)
+			res.Violate("optimizer-panic:"+normNums(firstLine(oerr.Error())), desc, stack)
 			continue
 		}
 		if oerr != nil {
@@ -267,3 +310,8 @@ func init() {
 		},
 	})
 }
+
+var numsRe = regexp.MustCompile(`\d+`)
+
+// normNums strips concrete numbers from a panic message so that one defect gives one classifier key.
+func normNums(s string) string { return numsRe.ReplaceAllString(s, "N") }
